@@ -47,6 +47,16 @@ template <class T, glm::qualifier Q, int C, int R> static void reg_matctor() {
 	add_op(name("to_mat2"), aM, spec("@4", tl), 'B', 'B', 0, FN { STM(out, glm::mat<2, 2, T, Q>(LDM<C, R, T, Q>(in))); });
 	add_op(name("to_mat3x4"), aM, spec("@12", tl), 'B', 'B', 0, FN { STM(out, glm::mat<3, 4, T, Q>(LDM<C, R, T, Q>(in))); });
 	add_op(name("to_mat4x2"), aM, spec("@8", tl), 'B', 'B', 0, FN { STM(out, glm::mat<4, 2, T, Q>(LDM<C, R, T, Q>(in))); });
+	// cross-element-type and cross-qualifier conversions of the same shape (separate constructor templates, with their own
+	// initializer-list / assignment branches per language level)
+	{
+		typedef typename std::conditional<std::is_same<T, float>::value, double, float>::type U2;
+		const char ul = std::is_same<T, float>::value ? 'd' : 'f';
+		add_op(name("convert_elemtype"), aM, strdup((std::string(1, ul) + std::to_string(N)).c_str()), 'B', 'B', 0, FN { glm::mat<C, R, U2, Q> u(LDM<C, R, T, Q>(in)); STM(out, u); });
+		add_op(name("convert_to_int"), strdup((std::string(1, tl) + "C" + std::to_string(N)).c_str()), strdup((std::string("i") + std::to_string(N)).c_str()), 'B', 'B', 0, FN { glm::mat<C, R, int, Q> u(LDM<C, R, T, Q>(in)); STM(out, u); });
+		add_op(name("convert_qualifier"), aM, oM, 'B', 'B', 0, FN { glm::mat<C, R, T, glm::packed_mediump> u(LDM<C, R, T, Q>(in)); glm::mat<C, R, T, Q> b(u); STM(out, b); });
+		add_op(name("assign_elemtype"), aM, strdup((std::string(1, ul) + std::to_string(N)).c_str()), 'B', 'B', 0, FN { glm::mat<C, R, U2, Q> u(U2(7)); u = LDM<C, R, T, Q>(in); STM(out, u); });
+	}
 	add_op(name("row"), aM, strdup((std::string(1, tl) + std::to_string(C)).c_str()), 'B', 'B', 0, FN { ST(out, glm::row(LDM<C, R, T, Q>(in), R - 1)); });
 	add_op(name("column"), aM, strdup((std::string(1, tl) + std::to_string(R)).c_str()), 'B', 'B', 0, FN { ST(out, glm::column(LDM<C, R, T, Q>(in), C - 1)); });
 }
